@@ -185,6 +185,7 @@ func (P) Gen(r *core.Rand, tier string, emit func([]string)) {
 	bigCases(r.Fork(), tier, emit)
 	badCases(r.Fork(), emit)
 	multiCases(r.Fork(), tier, emit)
+	faultCases(r.Fork(), tier, emit)
 	n := 350
 	if tier == "thorough" {
 		n = 4000
